@@ -487,7 +487,21 @@ def c04_programs(seed, tier):
                                                            setter("transform", tf()), setter("transform", None), setter("acq_start", dt(1.0)), setter("acq_start", None)]),
                                         image([rep("visual", 5)], setters=[setter("name", "x"), setter("name", "y")]), FIN]))
     # strings over the XML character domain, in every string position at once
-    strings = SPECIAL_STRINGS if tier == "thorough" else SPECIAL_STRINGS
+    strings = list(SPECIAL_STRINGS)
+    if tier == "thorough":
+        # random strings over the whole XML character domain (all planes, the XML metacharacters over-represented)
+        rs = random.Random(seed + 4)
+        def xml_char():
+            k = rs.random()
+            if k < 0.25:
+                return rs.choice("<>&'\"]\r\n\t ;#x[!-")
+            if k < 0.6:
+                return chr(rs.randrange(0x20, 0x7F))
+            while True:
+                c = rs.choice([rs.randrange(0x80, 0xD800), rs.randrange(0xE000, 0xFFFE), rs.randrange(0x10000, 0x110000)])
+                return chr(c)
+        for _ in range(60):
+            strings.append("".join(xml_char() for _ in range(rs.choice([1, 2, 3, 8, 40, 300]))))
     for i, s in enumerate(strings):
         steps = [new(s if s.strip() else "g" + s), {"op": "coord", "v": s},
                  pc(p0, 1, guid=s, setters=pc_setters_all("S", sval=s)),
@@ -502,7 +516,13 @@ def c04_programs(seed, tier):
     out.append(prog("nonxml_imname", [new("g"), image([rep("visual", 5)], setters=[setter("description", "d\x04")]), FIN], nonxml=True))
     out.append(prog("nonxml_exturl", [new("g"), {"op": "ext", "ns": "ext", "url": "urn:\x05"}, FIN], nonxml=True))
     # floats in every float position at once
-    for i, x in enumerate(SPECIAL_FLOATS):
+    floats = list(SPECIAL_FLOATS)
+    if tier == "thorough":
+        rf = random.Random(seed + 5)
+        for _ in range(60):
+            x = struct.unpack("<d", struct.pack("<Q", rf.getrandbits(64)))[0]
+            floats.append(x if x == x else 1.5)
+    for i, x in enumerate(floats):
         steps = [new("g"), {"op": "creation", "v": dt(x, i % 2 == 0)},
                  pc(p0, 1, setters=pc_setters_all("F", fval=x)),
                  image(all_reps(fv=x)[1 + i % 3], setters=im_setters_all("F", fval=x)), FIN]
@@ -595,6 +615,34 @@ def c14_programs(seed, tier):
                             p.append(v_int(rc["min"] + (k * 7 + ci * 3) % (span + 1)))
                     pts.append(p)
                 out.append(prog(f"b_{gname}_{tname}_{sname}", [new("g"), pc(proto, pts=pts), FIN], reals=True))
+    if tier == "thorough":
+        # arbitrary finite floats (any exponent, subnormals, +-0) and arbitrary scaled integers with awkward scales: the extremes
+        # sit at random indices; every coordinate type, with index records
+        def rnd_double():
+            while True:
+                x = struct.unpack("<d", struct.pack("<Q", r.getrandbits(64)))[0]
+                if x == x and abs(x) != float("inf"):
+                    return x
+        def rnd_single():
+            while True:
+                x = struct.unpack("<f", struct.pack("<I", r.getrandbits(32)))[0]
+                if x == x and abs(x) != float("inf"):
+                    return x
+        for k in range(40):
+            kind = ("double", "single", "sint")[k % 3]
+            if kind == "sint":
+                sc, off = r.choice([(0.001, 0.0), (1e-5, -3.25), (3.0, 1e6), (-0.7, 0.1), (1e300, 0.0), (5e-324, 0.0)])
+                lo, hi = r.choice([(-100, 100), (0, 1 << 40), (-(1 << 62), 1 << 62)])
+                mk = lambda n, sc=sc, off=off, lo=lo, hi=hi: rec(n, "sint", lo, hi, sc, off)
+                val = lambda lo=lo, hi=hi: v_sint(r.randint(lo, hi))
+            elif kind == "double":
+                mk = lambda n: rec(n, "double"); val = lambda: v_f64(r.choice([rnd_double(), r.uniform(-1e3, 1e3), 0.0, -0.0]))
+            else:
+                mk = lambda n: rec(n, "single"); val = lambda: v_f32(r.choice([rnd_single(), r.uniform(-1e3, 1e3), 0.0, -0.0]))
+            names = (C, Sn, C + Sn)[k % 3 if kind != "sint" else 0]
+            proto = [mk(n) for n in names] + idx[:3]
+            pts = [[val() for _ in names] + [v_int(r.randint(-5, 1000)), v_int(r.randint(0, 65535)), v_int(r.randint(0, 7))] for _ in range(r.choice([1, 2, 17, 120]))]
+            out.append(prog(f"b_random_{kind}_{k}", [new("g"), pc(proto, pts=pts), FIN], reals=True))
     # constant records (minimum = maximum, zero bits per point) take part in the bounds like any other
     for tname, mk in coord_types[:2]:
         for cname in C + Sn:
@@ -837,6 +885,22 @@ def c13_programs(seed, tier):
     sweep("double_undeclared_max", rec("intensity", "double"), [v_f64(0.0), v_f64(1.7976931348623157e308)])
     sweep("double_limits_equal", rec("intensity", "double"), dl, limits={"min": v_f64(2.0), "max": v_f64(2.0)})
     sweep("double_limits_extreme", rec("intensity", "double", f64(0.0), f64(1.0)), dl, limits={"min": v_f64(-1.7976931348623157e308), "max": v_f64(1.7976931348623157e308)})
+    if tier == "thorough":
+        # every value of every range width up to 12 bits at several offsets; random lattice limits around random lattice values
+        r = random.Random(seed)
+        for w in (1, 2, 3, 5, 7, 15, 100, 255, 1000, 1023, 4095):
+            for lo in (0, -w // 2, 7, -1000):
+                vals = list(range(lo, lo + w + 1))
+                if len(vals) > 600:
+                    vals = vals[:200] + vals[len(vals) // 2 - 100:len(vals) // 2 + 100] + vals[-200:]
+                sweep(f"int_all_{w}_{lo}", rec("intensity", "int", lo, lo + w), [v_int(x) for x in vals])
+                sweep(f"sint_all_{w}_{lo}", rec("intensity", "sint", lo, lo + w, 0.25, 0.5), [v_sint(x) for x in vals], color=(w % 2 == 0))
+        for k in range(60):
+            a = r.randrange(-4000, 4000) / 4.0
+            wq = r.choice([1, 2, 3, 10, 100, 1000, 20000]) / 4.0
+            vals = sorted({a + r.randrange(-8, int(wq * 4) + 9) / 4.0 for _ in range(40)} | {a, a + wq})
+            sweep(f"double_rand_limits_{k}", rec("intensity", "double"), [v_f64(x) for x in vals], limits={"min": v_f64(a), "max": v_f64(a + wq)}, color=(k % 3 == 0) and False)
+            sweep(f"single_rand_declared_{k}", rec("intensity", "single", f32(a), f32(a + wq)), [v_f32(x) for x in vals])
     # limits at the edges of the float format: infinite, inverted (also by less than halving can tell), subnormal widths
     sweep("double_limits_infinite", rec("intensity", "double"), dl, limits={"min": v_f64(float("-inf")), "max": v_f64(float("inf"))})
     sweep("double_limits_half_infinite", rec("intensity", "double"), dl, limits={"min": v_f64(0.0), "max": v_f64(float("inf"))})
